@@ -321,7 +321,7 @@ class Disassembler:
             return self.defb_range(start, end, ((0, DEFAULT_BASE),))
         value = values.pop()
         size, base = sublengths[0]
-        items = [self.op_formatter.format_byte(size or end - start, base)]
+        items = [self.op_formatter.format_byte(min(size or end - start, end - start), base)]
         if len(sublengths) > 1:
             items.append(self.op_formatter.format_byte(value, sublengths[1][1]))
         elif value:
